@@ -20,8 +20,7 @@ Record c16_case := {
   k_zshape : list Z;              (* its (authoritative) rank shapes *)
   k_skip : Z;                     (* innermost body skips points whose coordinate sum is 0 mod k_skip *)
   k_keys : list tkey;             (* traces registered before the run *)
-  k_thresholds : list Z;          (* Metrics.setNumCachedUses values *)
-  k_ref : bool }.                 (* the innermost body also does an untraced getPayloadRef *)
+  k_thresholds : list Z }.        (* Metrics.setNumCachedUses values *)
 
 Fixpoint n_pop (lv : list level) : nat :=
   match lv with
@@ -34,7 +33,7 @@ Definition z_in (c : c16_case) : option tree :=
   match n_pop (k_levels c) with O => None | S _ => Some (k_z c) end.
 
 Definition c16_events (c : c16_case) : list mev * option tree :=
-  let res := run (k_ref c) (traced c) (k_zshape c) (n_pop (k_levels c)) (k_skip c) (k_levels c) 0 []
+  let res := run (traced c) (k_zshape c) (n_pop (k_levels c)) (k_skip c) (k_levels c) 0 []
                  (k_inputs c) {| th_z := z_in c; th_lab := lab0 |} in
   (fst res, th_z (snd res)).
 
@@ -260,6 +259,29 @@ Definition ref_header (i : nat) (proj : bool) : row :=
 
 Definition is_zside (kind : Z) : bool := (kind =? K_RD) || (kind =? K_WR).
 
+(* an INSERTING traversal reads the destination while it scans for the insertion points
+   (iterators.py: iterRange(old_end, b_coord) before each source coordinate, the element itself
+   when it exists): every stored non-empty element of z below the last source coordinate has a
+   populate_read row from that scan, and a second one from the final shift when the write trace
+   is registered (only then coordinates are staged), a new coordinate was kept before it and it
+   is still non-empty at the end *)
+Definition read_covered (L : level) (kind label : Z) (i : nat) (wt : bool) (zi zf : fib) (e : env)
+  (here : list row) : bool :=
+  if (kind =? K_RD) && (label =? 0) && l_pop L then
+    let srcs := map fst (ref_elems L e) in
+    match rev srcs with
+    | m :: _ =>
+      let staged := filter (fun s => negb (mem_fib s zi) && mem_fib s zf) srcs in
+      forallb (fun ct =>
+        is_empty 0 (snd ct) || negb (fst ct <? m) ||
+        let n := length (filter (fun rw => nth i rw (-1) =? fst ct) here) in
+        let shifted := wt && existsb (fun s => s <? fst ct) staged
+                       && existsb (fun ct' => (fst ct' =? fst ct) && negb (is_empty 0 (snd ct'))) zf in
+        Nat.leb (if shifted then 2 else 1) n) zi
+    | [] => true
+    end
+  else true.
+
 (* one trace file against the property *)
 Definition trace_ok (c : c16_case) (zf : tree) (k : tkey) (content : list row) : bool :=
   let r := key_rank k in
@@ -281,14 +303,18 @@ Definition trace_ok (c : c16_case) (zf : tree) (k : tkey) (content : list row) :
     && (if key_kind k =? K_PROJ then true
         else if is_zside (key_kind k) && negb srcrank then
           (* destination side of a populate: every row lies below a reached point; traversals
-             that do not insert are addressed exactly, inserting ones are only stamp-ordered *)
+             that do not insert are addressed exactly, inserting ones are stamp-ordered and their
+             populate_read rows cover the stored elements below the last source coordinate *)
           forallb (fun rw => existsb (fun q => list_eqb (firstn i rw) (fst q)) sp) rest
           && forallb (fun q =>
                let zi := zdesc (k_z c) (fst q) in
-               negb (appending L zi (snd q))
-               || rows_eqb (filter (fun rw => list_eqb (firstn i rw) (fst q)) rest)
-                           (expect_at L false (key_kind k) (key_label k) zi (zdesc zf (fst q))
-                                      (fst q) (snd q))) sp
+               let here := filter (fun rw => list_eqb (firstn i rw) (fst q)) rest in
+               if appending L zi (snd q)
+               then rows_eqb here
+                             (expect_at L false (key_kind k) (key_label k) zi (zdesc zf (fst q))
+                                        (fst q) (snd q))
+               else read_covered L (key_kind k) (key_label k) i (traced c (r, K_WR, 0)) zi
+                                 (zdesc zf (fst q)) (snd q) here) sp
         else
           rows_eqb rest
             (flat_map (fun q => expect_at L srcrank (key_kind k) (key_label k) [] [] (fst q) (snd q))
